@@ -103,7 +103,7 @@ fn judge(r: &Value, mode: &str, obs: &Value) -> bool {
         }
         _ => {
             let (must, not, nl) = if mode.ends_with("short") { ("must_short", "not_short", "nl_short") } else { ("must_long", "not_long", "nl_long") };
-            let listed = |t: &Value| present.iter().any(|p| p["tok"] == *t && ["Arguments", "Options", "Commands"].contains(&p["sec"].as_str().unwrap_or("")));
+            let listed = |t: &Value| present.iter().any(|p| p["tok"] == *t && !["Top", "Usage"].contains(&p["sec"].as_str().unwrap_or("")));
             r[must].as_array().unwrap().iter().all(|m| present.iter().any(|p| p["tok"] == m["tok"] && p["sec"] == m["sec"]))
                 && !r[not].as_array().unwrap().iter().any(has_tok)
                 && !r[nl].as_array().unwrap().iter().any(listed)
